@@ -263,7 +263,7 @@ func (g *tgen) expr(d int) js_ast.Expr {
 	if d <= 0 || g.r.Chance(15) {
 		return g.leaf()
 	}
-	switch g.r.Intn(25) {
+	switch g.r.Intn(27) {
 	case 0, 1, 2, 3, 4:
 		return mk(&js_ast.EBinary{Op: g.binop(), Left: g.expr(d - 1), Right: g.expr(d - 1)})
 	case 5, 6, 7:
@@ -448,6 +448,8 @@ func (g *tgen) expr(d int) js_ast.Expr {
 		return mk(&js_ast.EBinary{Op: op, Left: l, Right: rr})
 	case 22:
 		return g.logicalWithBooleanLeft(d)
+	case 23, 24:
+		return g.typeShape(1)
 	default:
 		// boolean-context shapes
 		switch g.r.Intn(4) {
@@ -465,6 +467,83 @@ func (g *tgen) expr(d int) js_ast.Expr {
 		default:
 			return mk(&js_ast.EIf{Test: g.expr(d - 1), Yes: g.expr(d - 1), No: g.lit()})
 		}
+	}
+}
+
+// an operand of each static type class of KnownPrimitiveType
+func (g *tgen) typedOperand(d int) js_ast.Expr {
+	arith := []js_ast.OpCode{js_ast.BinOpSub, js_ast.BinOpMul, js_ast.BinOpDiv, js_ast.BinOpRem, js_ast.BinOpPow, js_ast.BinOpShl, js_ast.BinOpShr,
+		js_ast.BinOpUShr, js_ast.BinOpBitwiseOr, js_ast.BinOpBitwiseAnd, js_ast.BinOpBitwiseXor, js_ast.BinOpSubAssign, js_ast.BinOpMulAssign,
+		js_ast.BinOpBitwiseOrAssign, js_ast.BinOpShlAssign, js_ast.BinOpAddAssign, js_ast.BinOpAdd}
+	switch g.r.Intn(14) {
+	case 0:
+		return mk(js_ast.ENullShared)
+	case 1:
+		return mk(js_ast.EUndefinedShared)
+	case 2:
+		return mk(&js_ast.EBoolean{Value: g.r.Bool()})
+	case 3:
+		return mk(&js_ast.ENumber{Value: treeNums[g.r.Intn(len(treeNums))]})
+	case 4:
+		return mk(&js_ast.EBigInt{Value: treeBigs[g.r.Intn(len(treeBigs))]})
+	case 5:
+		return g.str()
+	case 6, 7, 8:
+		// number or bigint (Mixed)
+		if g.r.Chance(25) {
+			return mk(&js_ast.EUnary{Op: []js_ast.OpCode{js_ast.UnOpPreInc, js_ast.UnOpPostDec, js_ast.UnOpPreDec, js_ast.UnOpPostInc}[g.r.Intn(4)], Value: g.ident()})
+		}
+		return mk(&js_ast.EBinary{Op: arith[g.r.Intn(len(arith))], Left: g.ident(), Right: g.ident()})
+	case 9:
+		return g.ident() // Unknown
+	case 10:
+		return mk(&js_ast.EUnary{Op: []js_ast.OpCode{js_ast.UnOpPos, js_ast.UnOpNeg, js_ast.UnOpCpl, js_ast.UnOpNot, js_ast.UnOpVoid, js_ast.UnOpTypeof}[g.r.Intn(6)], Value: g.ident()})
+	case 11:
+		return mk(&js_ast.EIf{Test: g.ident(), Yes: g.typedOperandLeaf(), No: g.typedOperandLeaf()})
+	case 12:
+		return mk(&js_ast.ETemplate{Parts: []js_ast.TemplatePart{{Value: g.ident()}}})
+	default:
+		if d > 0 {
+			return g.typeShape(d - 1)
+		}
+		return g.probeCall()
+	}
+}
+
+func (g *tgen) typedOperandLeaf() js_ast.Expr {
+	switch g.r.Intn(6) {
+	case 0:
+		return mk(&js_ast.ENumber{Value: 1})
+	case 1:
+		return mk(&js_ast.EBigInt{Value: "1"})
+	case 2:
+		return g.str()
+	case 3:
+		return mk(&js_ast.EBinary{Op: js_ast.BinOpMul, Left: g.ident(), Right: g.ident()})
+	case 4:
+		return mk(js_ast.ENullShared)
+	default:
+		return g.ident()
+	}
+}
+
+// every operator whose result type KnownPrimitiveType derives from operand types
+func (g *tgen) typeShape(d int) js_ast.Expr {
+	switch g.r.Intn(8) {
+	case 0, 1, 2:
+		op := []js_ast.OpCode{js_ast.UnOpNeg, js_ast.UnOpCpl, js_ast.UnOpNeg, js_ast.UnOpCpl, js_ast.UnOpPos, js_ast.UnOpNot, js_ast.UnOpVoid}[g.r.Intn(7)]
+		return mk(&js_ast.EUnary{Op: op, Value: g.typedOperand(d)})
+	case 3, 4:
+		op := []js_ast.OpCode{js_ast.BinOpAdd, js_ast.BinOpAdd, js_ast.BinOpAddAssign, js_ast.BinOpNullishCoalescing, js_ast.BinOpLogicalOr, js_ast.BinOpLogicalAnd, js_ast.BinOpComma, js_ast.BinOpAssign}[g.r.Intn(8)]
+		return mk(&js_ast.EBinary{Op: op, Left: g.typedOperand(d), Right: g.typedOperand(d)})
+	case 5:
+		return mk(&js_ast.EIf{Test: g.ident(), Yes: g.typedOperand(d), No: g.typedOperand(d)})
+	case 6:
+		// clients of the type: strict equality that may be loosened, comparisons that may be removed
+		op := []js_ast.OpCode{js_ast.BinOpStrictEq, js_ast.BinOpStrictNe, js_ast.BinOpLooseEq, js_ast.BinOpLt, js_ast.BinOpGe}[g.r.Intn(5)]
+		return mk(&js_ast.EBinary{Op: op, Left: g.typeShape(0), Right: g.typedOperand(0)})
+	default:
+		return mk(&js_ast.EAnnotation{Value: g.typedOperand(d)})
 	}
 }
 
@@ -649,6 +728,9 @@ func extraCases(r *Rng, n int, tier string, cf *CoqFile, st *Stats) {
 	var kt, tb, tn, sn, cr []string
 	for i := 0; i < nt; i++ {
 		e := g.expr(r.Range(1, 3))
+		if i%2 == 0 {
+			e = g.typeShape(2) // every operator x operand type class
+		}
 		s := coqExpr(e)
 		kt = append(kt, fmt.Sprintf("(%s, %d)", s, js_ast.KnownPrimitiveType(e.Data)))
 		b, se, ok := js_ast.ToBooleanWithSideEffects(e.Data)
